@@ -14,13 +14,14 @@ import (
 func init() {
 	register(&propDef{
 		id:      "C03",
-		explain: "Structural necessary conditions of 'what the server writes is framed as its own header says': (R1) the fixed-size body writer hands the body stream to the copy primitive only through a bounding writer built from the declared size, and every use of the inner writer inside that type is bounded by (or control-dependent on a comparison with) the remaining count; (R2) on every path of writeBodyFixedSize a nil error is returned only when the copied count was compared equal to the declared size; (R3) every body-emitting call of Response.Write / writeBodyStream is control-dependent on the no-body predicate (SkipBody / 1xx-204-304); (R4) in the serve loop HEAD is tested before the response is written and the response written then has SkipBody set; a timeout response is installed with SkipBody under IsHead() of the timed-out request; (R5) SetContentLength of both header types makes the framing headers exclusive on every path: installing a numeric Content-Length removes Transfer-Encoding, installing chunked clears the Content-Length bytes. (R6) every writeChunk call is either the terminator (a constant-empty argument, after which no further chunk is written in that function) or a data chunk whose length was tested non-zero on the way to the call - an empty data chunk is the last-chunk marker. (R7) in the chunk-writing read loop the bytes a Read returned are framed, or n was found zero, before that Read's error ends the loop or the next Read is made. Not decided: byte-exact agreement with an independent parser, trailers, chunk encoding itself.",
+		explain: "Structural necessary conditions of 'what the server writes is framed as its own header says': (R1) the fixed-size body writer hands the body stream to the copy primitive only through a bounding writer built from the declared size, and every use of the inner writer inside that type is bounded by (or control-dependent on a comparison with) the remaining count; (R2) on every path of writeBodyFixedSize a nil error is returned only when the copied count was compared equal to the declared size; (R3) every body-emitting call of Response.Write / writeBodyStream is control-dependent on the no-body predicate (SkipBody / 1xx-204-304); (R4) in the serve loop HEAD is tested before the response is written and the response written then has SkipBody set; a timeout response is installed with SkipBody under IsHead() of the timed-out request; (R5) SetContentLength of both header types makes the framing headers exclusive on every path: installing a numeric Content-Length removes Transfer-Encoding, installing chunked clears the Content-Length bytes. (R6) every writeChunk call is either the terminator (a constant-empty argument, after which no further chunk is written in that function) or a data chunk whose length was tested non-zero on the way to the call - an empty data chunk is the last-chunk marker. (R7) in the chunk-writing read loop the bytes a Read returned are framed, or n was found zero, before that Read's error ends the loop or the next Read is made. (R8) the serve loop looks at the request method for the HEAD decision before the handler dispatch and never between the dispatch and the end of the iteration. Not decided: byte-exact agreement with an independent parser, trailers, chunk encoding itself.",
 		run: func(p *Prog, r *Report) {
 			runC03Bounded(p, r)
 			runC03SendBody(p, r)
 			runC03Exclusive(p, r)
 			runC03ChunkMarker(p, r)
 			runC03ReadData(p, r)
+			headDecidedBeforeHandler(p, r)
 			p.serveLoop("C03").report(r, "C03")
 			timeoutProducerRule(p, r, "C03")
 		},
@@ -625,4 +626,42 @@ func runC03ReadData(p *Prog, r *Report) {
 	x.Run(nil)
 	r.Check("R7", "writeBodyChunked: the bytes a Read returned are framed (or n was found zero) before its error ends the loop or the next Read is made", bad == 0 && n > 0 && !x.Aborted && nVal != nil, p.Pos(pos),
 		fmt.Sprintf("%d of %d explored ends of a Read's life drop its data: a reader that returns its last bytes together with io.EOF (a net/http body, a gzip reader, the request stream) has them left out of the chunked body", bad, n), wit...)
+}
+
+// headDecidedBeforeHandler (C03.R8): whether a response goes out without its body is decided by the method the server
+// received. The serve loop does not ask the ctx for the method (IsHead) on any path between the handler dispatch and
+// the next iteration: the handler may have rewritten the method, and after a timeout the ctx is another one.
+func headDecidedBeforeHandler(p *Prog, r *Report) {
+	fn, hcall, header, why := findServeLoop(p)
+	if fn == nil {
+		r.Undecided("R8", "serve loop", why)
+		return
+	}
+	isHeadCall := func(i ssa.Instruction) bool {
+		c, ok := i.(ssa.CallInstruction)
+		if !ok || c.Common().StaticCallee() == nil {
+			return false
+		}
+		f := c.Common().StaticCallee()
+		return f.Name() == "IsHead" && (recvTypeName(f) == "RequestCtx" || recvTypeName(f) == "RequestHeader" || recvTypeName(f) == "header")
+	}
+	outside := map[*ssa.BasicBlock]bool{header: true}
+	for _, b := range fn.Blocks {
+		if !inLoop(header, b) {
+			outside[b] = true
+		}
+	}
+	hit, path := reachAvoiding(fn, hcall, isHeadCall, nil, outside)
+	r.Check("R8", "serve loop: the request method is not consulted for the HEAD decision after the handler ran", hit == nil, p.Pos(hcall.Pos()),
+		"IsHead() is called between the handler dispatch and the end of the iteration: a handler that rewrites a HEAD request to GET (to reuse its GET logic) gets the body sent to the HEAD request, and the next response on the connection cannot be parsed", blocksString(p, path)...)
+	// and it is consulted before: the decision exists
+	n := 0
+	for _, b := range fn.Blocks {
+		for _, in := range b.Instrs {
+			if isHeadCall(in) && inLoop(header, b) && dominatesInstr(in, hcall) {
+				n++
+			}
+		}
+	}
+	r.Floor("R8", "looks at the request method before the handler dispatch", n, 1)
 }
